@@ -59,7 +59,9 @@ PACK = [
     ("eq-cs-is-zero", "C07", CH, r"if busy != Duration::ZERO \{", "if !busy.is_zero() {", "keep"),
     ("eq-cs-swap-calc", "C07", CH, r"(            let dur = metrics\.calculate_duration\(&msg, rng_ref\);\n)(            let busy = metrics\.calculate_busy\(&msg\);\n)", r"\2\1", "keep"),
     ("cfg-prefix-bare", "C17", YM, r"k\[key\.len\(\)\.\.\]\.starts_with\('\.'\)", "k.len() > key.len()", "kill"),
-    ("cfg-no-any-skip", "C17", YM, r"                    if k\.contains\(ANY\) \{\n                        continue;\n                    \}\n", "", "kill"),
+    ("cfg-no-any-skip", "C17", YM, r"if k\.contains\(ANY\) \|\| is_compartment\(v\) \{", "if is_compartment(v) {", "kill"),
+    ("cfg-compartment-as-entry", "C17", YM, r"                if is_compartment\(entry\) \{\n                    continue;\n                \}\n", "", "kill"),
+    ("cfg-compartment-as-plain-entry", "C17", YM, r"if k\.contains\(ANY\) \|\| is_compartment\(v\) \{", "if k.contains(ANY) {", "kill"),
     ("cfg-dot-at-wrong-index", "C17", YM, r"if i != 0 \{", "if i != 1 {", "kill"),
     ("cfg-wrong-rest", "C17", YM, r"self\.update_from\(entry, &path\[\(i \+ 1\)\.\.\]\);", "self.update_from(entry, &path[1..]);", "kill"),
     ("cfg-no-wildcard-step", "C17", YM, r"            if let Some\(value\) = map\.get\(ANY\) \{\n                self\.update_from\(value, &path\[1\.\.\]\);\n            \}\n", "", "kill"),
@@ -67,9 +69,12 @@ PACK = [
     ("cfg-name-keeps-dot", "C17", YM, r"&matching_key\[\(key\.len\(\) \+ 1\)\.\.\]", "&matching_key[key.len()..]", "kill"),
     ("cfg-first-prefix-only", "C17", YM, r"(                self\.update_from\(entry, &path\[\(i \+ 1\)\.\.\]\);\n)", r"\1                break;\n", "kill"),
     ("eq-cfg-len-and-dot", "C17", YM, r"k\.starts_with\(&key\) && k\[key\.len\(\)\.\.\]\.starts_with\('\.'\)", "k.starts_with(&key) && k.len() > key.len() && k[key.len()..].starts_with('.')", "keep"),
-    ("eq-cfg-if-not-any", "C17", YM, r"                    if k\.contains\(ANY\) \{\n                        continue;\n                    \}\n                    self\.set\(k\.clone\(\), v\.clone\(\)\);\n", "                    if !k.contains(ANY) {\n                        self.set(k.clone(), v.clone());\n                    }\n", "keep"),
+    ("eq-cfg-if-not-any", "C17", YM, r"                    if k\.contains\(ANY\) \|\| is_compartment\(v\) \{\n                        continue;\n                    \}\n                    self\.set\(k\.clone\(\), v\.clone\(\)\);\n", "                    if !(k.contains(ANY) || is_compartment(v)) {\n                        self.set(k.clone(), v.clone());\n                    }\n", "keep"),
     ("ndl-paren-assert", "C18", ND, r"        if !rem\.ends_with\('\)'\) \{\n            return Err\(format!\(\"invalid type clause '\{s\}': missing closing parenthesis\"\)\);\n        \}\n", "        assert!(rem.ends_with(')'));\n", "kill"),
     ("ndl-generic-arg-assert", "C18", NM, r"            if !replacement_deps\.is_empty\(\) \{\n                return Err\(\n                    ErrorKind::InvalidTypStatement\(typ\.clone\(\), replacement_deps\.clone\(\)\)\.into\(\),\n                \);\n            \}\n", "            assert!(replacement_deps.is_empty());\n", "kill"),
+    ("ndl-binding-expect", "C18", NM, r"        let Some\(\(node, req_args\)\) = nodes\.get\(&typ\.ident\) else \{\n            return Err\(ErrorKind::UnknownModule\(typ\.ident\.clone\(\)\)\.into\(\)\);\n        \};\n", "        let (node, req_args) = nodes.get(&typ.ident).expect(\"parse order\");\n", "kill"),
+    ("ndl-index-le", "C18", NM, r"\(Cluster\(n\), Cluster\(i\)\) if i < n =>", "(Cluster(n), Cluster(i)) if i <= n =>", "kill"),
+    ("ndl-cluster-from-one", "C18", NM, r"\(Cluster\(n\), Atom\) => Ok\(Box::new\(\(0\.\.n\)", "(Cluster(n), Atom) => Ok(Box::new((1..n)", "kill"),
     ("ndl-bracket-unwrap", "C18", ND, r"\.ok_or\(\"invalid syntax: expected opening bracket\"\)\?;", ".expect(\"opening bracket\");", "kill"),
     ("ndl-cluster-size-unwrap", "C18", ND, r"cluster\.parse::<usize>\(\)\.map_err\(\|e\| e\.to_string\(\)\)\?", "cluster.parse::<usize>().unwrap()", "kill"),
     ("eq-ndl-trim-first", "C18", ND, r"(        if !rem\.ends_with\('\)'\) \{\n            return Err\(format!\(\"invalid type clause '\{s\}': missing closing parenthesis\"\)\);\n        \}\n)(        let rem = rem\.trim_end_matches\('\)'\);\n)", r"\1\n\2", "keep"),
